@@ -183,6 +183,7 @@ def Op.releases (s : State) (t : Bool) (id : Nat) : Op → Prop
   | .removeBack t' => t' = t ∧ (s.get t).order[(s.get t).order.length - 1]? = some id
   | .clear t' => t' = t
   | .removeAll t' => t' = t ∧ ((s.get t).items id).key ∈ (s.get (!t)).order.map (fun j => ((s.get (!t)).items j).key)
+  | .removeSelf t' => t' = t          -- `t.remove(t)` releases every item of `t`
   | _ => False
 
 /-- the op destroys table object `t` or assigns over it: the life of ALL its items ends (destructor, `operator=`) -/
@@ -419,6 +420,27 @@ theorem items_stable_step_aux (kind : Kind) (h : Nat → Nat) (s s' : State) (op
       · exact Or.inl h1
       · exact Or.inr ⟨v, ⟨rfl, h2.symm, rfl⟩, h3⟩
     · exact stable_unchanged kind s _ _ t id hl (fun f => f) rfl (get_set_ne s t t' _ e)
+  case assignSelf t' => cases hst; exact stable_unchanged kind s _ _ t id hl (fun f => f) rfl rfl
+  case swapSelf t' => cases hst; exact stable_unchanged kind s _ _ t id hl (fun f => f) rfl rfl
+  case appendSelf t' =>
+    cases hst
+    by_cases e : t' = t
+    · subst e
+      refine ⟨fun _ => ?_, fun f => f.elim⟩
+      have hk : kind ≠ Kind.map := by
+        intro hk; rw [hk] at hav; simp [Op.available] at hav
+      have hst := hi.appendAll_stable kind hk (s.get t').items (s.get t').order id hl
+      simp only [Op.owner, get_set_same]
+      exact ⟨hst.1, by rw [hst.2], Or.inl (by rw [hst.2])⟩
+    · exact stable_unchanged kind s _ _ t id hl (fun f => f) rfl (get_set_ne s t t' _ e)
+  case removeSelf t' =>
+    cases hst
+    by_cases e : t' = t
+    · subst e
+      have hst := hi.removeAll_stable (s.get t').items (s.get t').order id hl
+      simp only [Op.releases, Op.owner, get_set_same, not_true_eq_false, false_implies, true_implies, true_and]
+      exact hst.2.2 (List.mem_map.2 ⟨id, hl, rfl⟩)
+    · exact stable_unchanged kind s _ _ t id hl (fun f => e f) rfl (get_set_ne s t t' _ e)
   case find t' k => cases hst; exact stable_unchanged kind s _ _ t id hl (fun f => f) rfl rfl
   case contains t' k => cases hst; exact stable_unchanged kind s _ _ t id hl (fun f => f) rfl rfl
   case size t' => cases hst; exact stable_unchanged kind s _ _ t id hl (fun f => f) rfl rfl
